@@ -21,6 +21,7 @@ import random as pyrandom
 import signal
 import sys
 import threading
+import time
 import traceback
 
 import numpy as np
@@ -223,6 +224,10 @@ def _wrap(name, fn):
                 hist.n[name] = hn + 1
                 args, kwargs = bound.args, bound.kwargs
                 hist.remember(name, fn, bound)
+                det_fn = 'seed' not in bound.arguments and name not in hist.nondet
+                if det_fn:
+                    h_np = np.random.get_state()
+                    h_py = pyrandom.getstate()
                 REC.history = {'function': name, 'call_no': hn, 'aborted_precall_at_line_event': ab,
                                'argument_buffers_reused': len(used), 'primed_with_renumbered_input': primed, 'sibling_run_first': sib, 'flags_respelled': spelled, 'result_mode': 'poison' if history._pick(name, hn, 'r') % 2 else 'stable'}
             arrs = []
@@ -241,12 +246,15 @@ def _wrap(name, fn):
                 g_np = np.random.get_state()
                 g_py = pyrandom.getstate()
             exc = None
+            t_call = time.perf_counter()
             try:
                 result = fn(*args, **kwargs)
             except CaseTimeout:
                 raise
             except Exception as e:  # noqa
                 exc = e
+            if hist is not None:
+                hist.cost[name] = 0.7 * hist.cost.get(name, 0.0) + 0.3 * (time.perf_counter() - t_call)
             # ---- C13: arguments unchanged
             if snaps:
                 allow = name in COPY_FALSE_OK and bound is not None and bound.arguments.get('copy', True) is False
@@ -278,6 +286,14 @@ def _wrap(name, fn):
             if exc is not None:
                 raise exc
             if hist is not None:
+                if det_fn and bound.arguments.get('copy', True) is not False:
+                    hist.record(name, fn, hn, args, kwargs, result,
+                                _np_state_equal(h_np, np.random.get_state()) and h_py == pyrandom.getstate())
+                    entry = hist.replay_due(name, hn)
+                    if entry is not None:
+                        r = hist.replay(name, fn, entry)
+                        if r is not None:
+                            REC.check(REC.prop or 'C13', name, 'same_call_same_result', r[0], None if r[0] else r[1])
                 result = _history_after(hist, name, hn, used, arrs, result)
             return result
         finally:
